@@ -2,6 +2,7 @@ package saslauthenticate
 
 import (
 	"encoding/binary"
+	"fmt"
 	"io"
 
 	"github.com/segmentio/kafka-go/protocol"
@@ -42,6 +43,9 @@ func (r *Request) readResp(read io.Reader) (protocol.Message, error) {
 		return nil, err
 	}
 	respLen := int32(binary.BigEndian.Uint32(lenBuf[:]))
+	if respLen < 0 {
+		return nil, fmt.Errorf("invalid negative length of the SASL authentication response: %d", respLen)
+	}
 	data := make([]byte, respLen)
 
 	if _, err := io.ReadFull(read, data[:]); err != nil {
